@@ -111,3 +111,60 @@ Proof.
   { revert E1 E2. generalize (sod / 3600) (sod / 60 mod 60) (sod mod 60). intros a b0 c0 E1 E2. lia. }
   rewrite E5. ring.
 Qed.
+
+(* ---------- the http-date format (RFC 7231 IMF-fixdate), the format of every timestamp header ---------- *)
+Lemma weekday_name_parses w rest : 0 <= w < 7 ->
+  let name := nth (Z.to_nat w) weekday_names [] in
+  exists k, index_of_name (firstn 3 (name ++ rest)) weekday_names 0 = Some k /\ skipn 3 (name ++ rest) = rest.
+Proof.
+  intros Hw. assert (Hc : w = 0 \/ w = 1 \/ w = 2 \/ w = 3 \/ w = 4 \/ w = 5 \/ w = 6) by lia.
+  destruct Hc as [->|[->|[->|[->|[->|[->| ->]]]]]]; cbn zeta; eexists; (split; [vm_compute; reflexivity|reflexivity]).
+Qed.
+
+Lemma month_name_parses m rest : 1 <= m <= 12 ->
+  let name := nth (Z.to_nat (m - 1)) month_names [] in
+  index_of_name (firstn 3 (name ++ rest)) month_names 1 = Some m /\ skipn 3 (name ++ rest) = rest.
+Proof.
+  intros Hm. assert (Hc : m = 1 \/ m = 2 \/ m = 3 \/ m = 4 \/ m = 5 \/ m = 6 \/ m = 7 \/ m = 8 \/ m = 9 \/ m = 10 \/ m = 11 \/ m = 12) by lia.
+  destruct Hc as [->|[->|[->|[->|[->|[->|[->|[->|[->|[->|[->| ->]]]]]]]]]]]; cbn zeta; (split; [vm_compute; reflexivity|reflexivity]).
+Qed.
+
+Theorem httpdate_roundtrip t : year_ok t ->
+  exists s, format_ts HttpDate t = Some s /\ parse_ts HttpDate s = Some (truncate_ts HttpDate t).
+Proof.
+  unfold year_ok, format_ts, parse_ts, truncate_ts, NS. cbn zeta.
+  set (secs := t / 1000000000).
+  set (days := secs / 86400). set (sod := secs mod 86400).
+  pose proof (civil_valid days) as Hv. pose proof (days_civil_days days) as Hd.
+  destruct (civil_from_days days) as [[y m] d] eqn:Ec. intros Hy.
+  assert (Hsod : 0 <= sod < 86400) by (unfold sod; apply Z.mod_pos_bound; lia).
+  assert (Hyb : (0 <=? y) && (y <=? 9999) = true) by lia. rewrite Hyb.
+  eexists. split; [reflexivity|].
+  unfold valid_date in Hv.
+  assert (Hm : 1 <= m <= 12) by lia.
+  assert (Hdd : 1 <= d <= 31).
+  { assert (days_in_month y m <= 31) by (unfold days_in_month; destruct (is_leap y); destruct m as [|p|p]; try lia; do 4 (try (destruct p as [p|p|]; try lia))). lia. }
+  assert (Hw : 0 <= weekday days < 7) by (unfold weekday; apply Z.mod_pos_bound; lia).
+  unfold parse_rfc1123.
+  match goal with |- context [nth (Z.to_nat (weekday days)) weekday_names [] ++ ?r] =>
+    destruct (weekday_name_parses (weekday days) r Hw) as (k & Hk & Hsk) end.
+  cbn zeta in Hk, Hsk. rewrite Hk, Hsk. rewrite strip_prefix_app.
+  rewrite take_digits2 by lia. cbn [app expect]. rewrite N.eqb_refl.
+  match goal with |- context [nth (Z.to_nat (m - 1)) month_names [] ++ ?r] =>
+    destruct (month_name_parses m r Hm) as (Hmn & Hsm) end.
+  cbn zeta in Hmn, Hsm. rewrite Hmn, Hsm. cbn [app expect]. rewrite N.eqb_refl.
+  rewrite take_digits4 by lia. cbn [app expect]. rewrite N.eqb_refl.
+  rewrite take_digits2 by lia. cbn [app expect]. rewrite N.eqb_refl.
+  rewrite take_digits2 by lia. cbn [app expect]. rewrite N.eqb_refl.
+  rewrite take_digits2 by lia.
+  rewrite beq_refl. cbn [andb].
+  unfold valid_date, valid_hms.
+  assert (Hok : (1 <=? m) && (m <=? 12) && (1 <=? d) && (d <=? days_in_month y m) && ((sod / 3600 <? 24) && (sod / 60 mod 60 <? 60) && (sod mod 60 <? 60)) = true).
+  { rewrite Hv. lia. }
+  rewrite Hok. f_equal. unfold epoch_seconds. rewrite Hd.
+  assert (E5 : days * 86400 + sod / 3600 * 3600 + sod / 60 mod 60 * 60 + sod mod 60 = secs).
+  { assert (E1 : sod / 3600 * 3600 + sod / 60 mod 60 * 60 + sod mod 60 = sod) by lia.
+    assert (E2 : days * 86400 + sod = secs) by (unfold days, sod; lia).
+    revert E1 E2. generalize (sod / 3600) (sod / 60 mod 60) (sod mod 60). intros a b0 c0 E1 E2. lia. }
+  rewrite E5. reflexivity.
+Qed.
